@@ -168,6 +168,12 @@ class Ctx:
 RULES = {}
 
 
+def vlib_render_matches(ctx, case, src):
+    """does this case render to the given source? (asks the harness)"""
+    p = subprocess.run([ctx.get_harness(), "render"], input=json.dumps(case), capture_output=True, text=True)
+    return p.returncode == 0 and p.stdout.strip() == src.strip()
+
+
 def replay_one(ctx, path):
     """Re-run exactly one recorded case through TLC and the implementation."""
     with open(path) as f:
@@ -203,9 +209,27 @@ RULES["C01"] = ("programs: TLC enumerates spec/Scope.tla C01_* (every construct 
 
 @check("C01")
 def c01(ctx):
-    ctx.technique = "TLC-evaluated reference semantics (spec/Semantics.tla) replayed into Compile/Run; VM refinement model-checked"
+    ctx.technique = ("TLC-evaluated reference semantics (spec/Semantics.tla) replayed into Compile/Run; "
+                     "VM.tla o Codegen.tla model-checked to refine it; H1 engine traces validated against VM.tla")
     cases = ctx.gen_cases("C01")
+    quick = ctx.tier == "quick"
+    # (1) the design: the operational model refines the reference semantics
+    sample = [c for c in cases if c["id"] % (5 if quick else 1) == 0]
+    mc_vm(ctx, "refine", cap_texts(sample, hi_cap=3 if quick else 4))
+    # (2) the binding: every (program, text) of the scope through the real code
     ctx.replay("C01-exhaustive", cases, FIELDS["C01"])
+    # (3) the binding at step level: recorded engine runs are behaviours of VM.tla
+    tsample = [c for c in cases if c["id"] % (23 if quick else 5) == 0]
+    res = validate_vm_traces(ctx, "c01", expand_texts(cap_texts(tsample), 30 if quick else 60, ctx.seed))
+    if not res["accepted"] and "rejected_case" in res:
+        # classify: an observable difference is a verdict, an internal one a diagnostic
+        rc = res["rejected_case"]
+        probe = [c for c in cap_texts(tsample) if vlib_render_matches(ctx, c, rc["src"])]
+        for c in probe[:1]:
+            c = dict(c)
+            c.pop("sigma", None)
+            c["texts"] = [rc["text"]]
+            ctx.replay("C01-trace-rejected", [c], FIELDS["C03"])
 
 
 RULES["C02"] = ("programs: spec/Scope.tla C02_Bodies (captures under or / loops / subroutines / recursion, "
@@ -241,3 +265,126 @@ def c04(ctx):
     ctx.technique = "Window(FindAll(all B), amount) from spec/Semantics.tla replayed into find and replace commands"
     cases = ctx.gen_cases("C04")
     ctx.replay("C04-windows", cases, FIELDS["C04"])
+
+
+# ------------------------------------------------------------------ VM jobs
+import itertools
+import re
+
+
+def cap_texts(cases, hi_cap=None, first_cmd_only=True):
+    out = []
+    for c in cases:
+        c = dict(c)
+        if hi_cap is not None and "hi" in c:
+            c["hi"] = min(c["hi"], hi_cap)
+        if first_cmd_only:
+            c["cmds"] = c["cmds"][:1]
+        out.append(c)
+    return out
+
+
+def mc_vm(ctx, name, cases, dev=(), expect=None, max_steps=5000, workers=None, timeout=900, liveness=False,
+          invariants=("RefinesSemantics", "MatchWF", "LineColOK", "NoStuck", "StepBound", "TypeOK"), what=""):
+    """Model-check spec/VM.tla (the engine as a state machine, run on the code
+    spec/Codegen.tla generates) over the given cases.  expect=None: must find
+    no error.  expect="RefinesSemantics" etc.: a sensitivity run, TLC must
+    report that invariant (or property) violated."""
+    d = ctx.scratch.sub("mc_" + name)
+    with open(os.path.join(d, "cases.ndjson"), "w") as f:
+        for c in cases:
+            f.write(json.dumps(c, separators=(",", ":")) + "\n")
+    devs = "{" + ", ".join('"%s"' % x for x in dev) + "}"
+    cfg = ("SPECIFICATION Spec\nCONSTANT CaseFile = \"cases.ndjson\"\nCONSTANT MaxSteps = %d\nCONSTANT Dev = %s\n"
+           "INVARIANTS %s\n%sCHECK_DEADLOCK FALSE\n" % (max_steps, devs, " ".join(invariants),
+                                                       "PROPERTY Terminates\n" if liveness else ""))
+    out, st = vlib.run_tlc(d, "VM", cfg, workers=workers or vlib.NCPU, timeout=timeout, heap="8g")
+    m = re.search(r"Error: Invariant (\w+) is violated", out)
+    tp = re.search(r"Error: Temporal properties were violated", out)
+    found = m.group(1) if m else ("Terminates" if tp else None)
+    if expect is None:
+        if found or not st["ok"]:
+            raise Undecided("model checking of spec/VM.tla failed (%s): the specification family is inconsistent:\n%s"
+                            % (found, vlib.tlc_error_excerpt(out, 60)))
+        ctx.add_mc("VM:" + name, st, what or "VM(Codegen(p), t) refines Semantics; MatchWF, NoStuck, StepBound in every state")
+    else:
+        ok = found == expect
+        ctx.sensitivity.append({"switch": list(dev), "expected_violation": expect, "tlc_reported": found, "ok": ok,
+                                "distinct_states": st["distinct"]})
+        if not ok:
+            raise Undecided("sensitivity run %s: TLC did not report %s with switches %s (reported %s)" % (name, expect, dev, found))
+    return st
+
+
+def expand_texts(cases, limit_per_case=40, seed=1):
+    """explicit texts for cases given as (sigma, lo, hi); a deterministic
+    sample when there are more than limit_per_case"""
+    import random
+    rnd = random.Random(seed)
+    out = []
+    for c in cases:
+        c = dict(c)
+        if "texts" not in c:
+            sig = c.pop("sigma")
+            lo, hi = c.pop("lo"), c.pop("hi")
+            texts = [list(t) for k in range(lo, hi + 1) for t in itertools.product(sig, repeat=k)]
+            if len(texts) > limit_per_case:
+                texts = rnd.sample(texts, limit_per_case)
+            c["texts"] = texts
+        out.append(c)
+    return out
+
+
+def validate_vm_traces(ctx, name, cases, timeout=900, max_events=300000):
+    """Record engine steps (hook H1) on the real code for the cases and let
+    TLC check that every recorded run is a behaviour of spec/VM.tla executed
+    on the implementation's own bytecode."""
+    d = ctx.scratch.sub("vt_" + name)
+    inp = os.path.join(d, "in.ndjson")
+    with open(inp, "w") as f:
+        for c in cases:
+            f.write(json.dumps(c, separators=(",", ":")) + "\n")
+    p = subprocess.run([ctx.get_harness(), "trace", "-cases", inp, "-out", os.path.join(d, "T"),
+                        "-max-events", str(max_events)], capture_output=True, text=True, timeout=600)
+    if p.returncode != 0:
+        raise Undecided("trace recording failed: " + p.stderr[-1000:])
+    info = json.loads(p.stdout.strip().splitlines()[-1])
+    if info["cases"] == 0:
+        raise Undecided("no trace could be recorded")
+    cfg = ("SPECIFICATION TraceSpec\nCONSTANT CaseFile = \"T.cases.ndjson\"\nCONSTANT TraceFile = \"T.trace.ndjson\"\n"
+           "CONSTANT MaxSteps = 1000000\nCONSTANT Dev = {}\nCONSTRAINT HighWater\nINVARIANTS MatchWF NoStuck LineColOK\n"
+           "POSTCONDITION TraceAccepted\nCHECK_DEADLOCK FALSE\n")
+    out, st = vlib.run_tlc(d, "VMTrace", cfg, workers=1, timeout=timeout, heap="8g")
+    rejected = "TRACE-REJECTED" in out
+    inv = re.search(r"Error: Invariant (\w+) is violated", out)
+    res = {"traces": info["cases"], "events": info["events"], "skipped": info["skipped"],
+           "accepted": not rejected and st["ok"] and not inv, "distinct_states": st["distinct"]}
+    if inv:
+        res["invariant_violated"] = inv.group(1)
+    if rejected:
+        m = re.search(r'"TRACE-REJECTED at line",\s*(\d+)', out)
+        line_no = int(m.group(1)) if m else -1
+        res["rejected_at_line"] = line_no
+        # find the case the rejected line belongs to
+        case_id = None
+        with open(os.path.join(d, "T.trace.ndjson")) as f:
+            for k, ln in enumerate(f, 1):
+                e = json.loads(ln)
+                if e.get("ev") == "reset":
+                    case_id = e["c"]
+                if k >= line_no:
+                    res["rejected_event"] = e
+                    break
+        if case_id is not None:
+            with open(os.path.join(d, "T.cases.ndjson")) as f:
+                for ln in f:
+                    cc = json.loads(ln)
+                    if cc["id"] == case_id:
+                        res["rejected_case"] = {"src": cc["src"], "text": cc["texts"][0]}
+                        break
+    elif not st["ok"] and not inv:
+        raise Undecided("TLC failed on spec/VMTrace.tla:\n" + vlib.tlc_error_excerpt(out, 50))
+    ctx.states += st["distinct"]
+    ctx.transitions += st["states"]
+    ctx.diagnostics.setdefault("vm_trace_validation", []).append({"name": name, **res})
+    return res
